@@ -32,7 +32,8 @@ EXPECTED_PROBES = ['fault_before_connected', 'fault_after_ready',
                    'app_call_got_wse',
                    'fault_in_proxy_phase', 'fault_on_tls', 'two_sessions',
                    'persist_marathon',
-                   'stalled_writes']
+                   'stalled_writes', 'link_down',
+                   'read_error_after_connected']
 
 
 def _echo_app():
@@ -197,7 +198,7 @@ def _fault_list(b):
         faults.append({'op': 'sendall', 'k': k, 'kind': 'epipe', 'partial': 1})
         faults.append({'op': 'sendall', 'k': k, 'kind': 'reset', 'partial': 3})
     for k in range(nrecv + 1):
-        for kind in ('reset', 'exc', 'timeout'):
+        for kind in ('reset', 'exc', 'timeout', 'ssl'):
             faults.append({'op': 'recv', 'k': k, 'kind': kind})
     for k in range(min(npoll + 1, 40)):
         for kind in ('exc', 'oserror'):
@@ -226,7 +227,8 @@ def plan(tier):
     return [('sweep', nb * SLOTS),
             ('multi', 3000 if tier == 'quick' else 150000),
             ('two_sessions', 400 if tier == 'quick' else 20000),
-            ('persist_marathon', 8 if tier == 'quick' else 200)]
+            ('persist_marathon', 8 if tier == 'quick' else 200),
+            ('link_down', 300 if tier == 'quick' else 20000)]
 
 
 def _two_sessions_case(rng):
@@ -372,7 +374,74 @@ def _execute_marathon(case):
     return r
 
 
+def _link_down_case(rng):
+    """The local link goes down after Ready: every write fails from then on
+    (ENOBUFS, the read side stays as it was), nothing arrives any more and
+    nobody closes anything.  With a ping timeout configured the iterator
+    must end by itself."""
+    p = rng.choice([0.5, 1, 2, 5])
+    r = p * rng.choice([0.5, 1, 2, 3])
+    return {'link_down': True, 'poll': p, 'ping_rate': r,
+            'ping_timeout': r * rng.choice([1.5, 2.5, 4]),
+            'kind': rng.choice(['enobufs', 'exc', 'timeout']),
+            # how many writes after the request still succeed
+            'good_writes': rng.choice([0, 0, 1, 3]),
+            'pongs': rng.random() < 0.5,
+            'tls': rng.random() < 0.3,
+            'app_pings': rng.random() < 0.3}
+
+
+def _execute_link_down(case):
+    res = Result()
+    p, r, t = case['poll'], case['ping_rate'], case['ping_timeout']
+    conn = {'server': S.handshake_steps() + [
+        S.send(peer.enc_frame(1, b'up')), {'op': 'silence'}],
+        'faults': [{'op': 'sendall', 'k_from': 1 + case['good_writes'],
+                    'kind': case['kind']}]}
+    if case.get('pongs'):
+        conn['react'] = {'pong': {'delay': 1000}}
+    app = []
+    if case.get('app_pings'):
+        app = [{'when': {'name': 'poll'}, 'do': [{'op': 'send_ping',
+                                                  'hex': '61'}]}]
+    sc = {'url': ('wss' if case.get('tls') else 'ws') + '://example.test/',
+          'connect': {'poll': p, 'ping_rate': r, 'ping_timeout': t},
+          'conns': [conn], 'app': app, 'max_polls': 4000,
+          'max_time_us': int((t * 40 + 600) * 1e6)}
+    tr = netsim.run(sc)
+    w = tr.world
+    res.stats.update(w.stats)
+    res.stats['probe:link_down'] += 1
+    res.sim_us = w.now
+    res.digest = tr.digest()
+    names = tr.names()
+    key = 'C09/link_down/' + case['kind']
+    if tr.escaped:
+        res.bad(key + '/exception_escaped', '%s: %s' % tr.escaped)
+    if tr.hang:
+        res.bad(key + '/hang', 'every write fails, nothing arrives, '
+                'ping_timeout=%s: %s | events %s' % (t, tr.hang, names[-5:]))
+    elif not names or names[-1] != 'disconnected':
+        res.bad(key + '/no_terminal_event', 'events %s' % names[-5:])
+    else:
+        d = [e for e in tr.events if e.name == 'disconnected'][-1]
+        if d.snap[1]:
+            res.bad(key + '/graceful', 'events %s' % names[-5:])
+        if d.open_socks:
+            res.bad(key + '/socket_open_at_terminal_event', '%d' % d.open_socks)
+    for c in tr.calls:
+        if c.outcome == 'raised' and not c.exc_is_wse:
+            res.bad(key + '/app_call_raised_' + c.exc, c.op)
+    res.nontrivial = 'ready' in names and any(
+        k.startswith('fault:sendall') for k in w.stats)
+    res.sig = repr(sorted(case.items()))
+    res.sample = {'case': case, 'events': [n for n in names][:12]}
+    return res
+
+
 def make_case(family, i, rng, tier):
+    if family == 'link_down':
+        return _link_down_case(rng)
     if family == 'two_sessions':
         return _two_sessions_case(rng)
     if family == 'persist_marathon':
@@ -434,6 +503,8 @@ def build(case):
 
 
 def execute(case):
+    if case.get('link_down'):
+        return _execute_link_down(case)
     if case.get('two_sessions'):
         return _execute_two(case)
     if case.get('persist_marathon'):
@@ -508,6 +579,21 @@ def execute(case):
                             f0['socket_fail_mask'], fnames))
             else:
                 res.stats['probe:next_address_tried'] += 1
+    rm = w.recv_fault_marks
+    if len(case['faults']) == 1 and f0.get('op') == 'recv' and rm and \
+            'connected' in fnames:
+        # a read that failed ends the connection there and then: the error
+        # is reported by the terminal event, nothing that was still in the
+        # network is delivered as if the stream had stayed intact
+        res.stats['probe:read_error_after_connected'] += 1
+        later = [e for e in first if e.seq > rm[0][2]]
+        ln = [e.name for e in later if e.name != 'poll']
+        if not ln or ln[-1] != 'disconnected' or any(
+                n in ('text', 'binary', 'ping', 'pong', 'ready', 'closing',
+                      'closed') for n in ln):
+            res.bad(key + '/read_error_not_terminal',
+                    'recv #%d raised (%s); events after it: %s' % (
+                        f0['k'], f0['kind'], ln[:8]))
     if 'ready' in fnames and fired:
         res.stats['probe:fault_after_ready'] += 1
     if sc['conns'][0].get('proxy') and 'connected' not in fnames and fired:
